@@ -60,8 +60,8 @@ func c15(args []string) int {
 	run := NewRun("C15", args)
 	r := run.R
 	run.Sum.Rule = "configurations: host sets of 0..7 hosts with partial, overlapping metadata over keys {k1,k2,k3} x values {a,b,c} (same values under different keys on purpose), some hosts unhealthy; selector lists incl. nested, duplicate, unsorted and EMPTY key sets, and (45 %) a pair of selectors one of whose sorted key lists is a prefix / suffix / subset of the other's, in both orders; the three fallback policies; default subsets (empty, matching, non-matching). queries per configuration: nil criteria, empty criteria, every selector instantiated from a host (hit), with one value changed, strict subsets and supersets of selectors, unknown keys and values. A configuration is non-trivial when it has >= 2 hosts and >= 1 selector; distinct by (hosts, selectors, policy, default)."
-	header := "From MV Require Import Model.Subset.\nFrom Coq Require Import List Arith.\nImport ListNotations.\n"
-	sh := run.NewShard(header, "ss_case", "ss_mismatches")
+	header := "From MV Require Import Gen.SubsetTokens Model.Subset.\nFrom Coq Require Import List Arith.\nImport ListNotations.\n"
+	sh := run.NewShard(header, "ss_case", "ss_mismatches fh_mode")
 	hostSeq := 0
 	nconf := run.N(1500, 8000)
 	for ci := 0; ci < nconf; ci++ {
@@ -171,17 +171,50 @@ func c15(args []string) int {
 			}
 		}
 		pol := uint8(r.Intn(3))
+		// default subset of 0..3 pairs: pairs carried by a host, values absent from every host ("z"), a key absent from every
+		// host (k9), and mixtures (a host matching only some of the pairs)
 		dflt := map[string]string{}
-		if r.Pct(70) {
-			if n > 0 && r.Pct(60) {
-				src := metas[r.Intn(n)]
-				for _, k := range ssKeys { // fixed key order: the run must be a function of the seed only
-					if v, ok := src[k]; ok && r.Pct(60) {
+		if r.Pct(80) {
+			np := r.Intn(4)
+			var src map[string]string
+			if n > 0 {
+				src = metas[r.Intn(n)]
+			}
+			for j := 0; j < np; j++ {
+				k := ssKeys[r.Intn(3)]
+				switch x := r.Intn(10); {
+				case x < 5 && src != nil:
+					if v, ok := src[k]; ok {
 						dflt[k] = v
+					} else {
+						dflt[k] = ssVals[r.Intn(3)]
+					}
+				case x < 7:
+					dflt[k] = "z" // carried by no host
+				case x < 8:
+					dflt["k9"] = ssVals[r.Intn(3)] // key carried by no host
+				default:
+					dflt[k] = ssVals[r.Intn(3)]
+				}
+			}
+		}
+		if len(dflt) >= 2 {
+			absent, present := false, false
+			for k, v := range dflt {
+				some := false
+				for i := 0; i < n; i++ {
+					if metas[i][k] == v {
+						some = true
 					}
 				}
-			} else {
-				dflt[ssKeys[r.Intn(3)]] = ssVals[r.Intn(4)]
+				if some {
+					present = true
+				} else {
+					absent = true
+				}
+			}
+			if absent && present {
+				run.Sum.Distribution["config:default-subset-with-absent-and-present-pairs"]++
 			}
 		}
 		info := cluster.NewClusterInfo(v2.Cluster{Name: "c15", LbType: v2.LB_ROUNDROBIN,
